@@ -240,13 +240,61 @@ def holiday_probe() -> list:
     return bad[:4]
 
 
+def tz_switch_probe() -> list:
+    """the answer depends on the system time zone in force when it is asked (C15): the same trigger definitions are asked
+    under a second system zone in the same process (TZ + tzset) and judged against zoneinfo"""
+    import datetime as dtm
+    import os
+    from zoneinfo import ZoneInfo
+    from eascheduler.builder import TriggerBuilder as T
+    from eascheduler.builder.triggers import _get_producer
+    from whenever import Instant
+    bad = []
+    old = os.environ.get('TZ')
+    try:
+        ref = Instant.from_utc(2025, 5, 14, 3, 17)
+        for zone in ('Europe/Berlin', 'America/New_York', 'Asia/Kolkata', 'Europe/Berlin'):
+            os.environ['TZ'] = zone
+            time.tzset()
+            for hh, mm in ((12, 0), (6, 30), (23, 15)):
+                trig = T.time(f'{hh:02d}:{mm:02d}:00', clock_forward='skip', clock_backward='earlier')
+                for name, p in (('time trigger', _get_producer(trig)),
+                                ('earliest bound', _get_producer(T.interval(Instant.from_utc(2025, 5, 14), 24 * 3600)
+                                                                 .earliest(f'{hh:02d}:{mm:02d}:00', clock_forward='skip', clock_backward='earlier')))):
+                    got = p.get_next(ref).timestamp()
+                    z = ZoneInfo(zone)
+                    day = dtm.datetime.fromtimestamp(ref.timestamp(), z).date()
+                    want = None
+                    for d in range(3):
+                        c = dtm.datetime.combine(day + dtm.timedelta(days=d), dtm.time(hh, mm), z).timestamp()
+                        if name == 'time trigger' and c > ref.timestamp():
+                            want = c
+                            break
+                    if name == 'earliest bound':
+                        base = Instant.from_utc(2025, 5, 15).timestamp()          # the interval's next occurrence after ref
+                        bday = dtm.datetime.fromtimestamp(base, z).date()
+                        want = max(base, dtm.datetime.combine(bday, dtm.time(hh, mm), z).timestamp())
+                    if want is not None and int(want) != got:
+                        bad.append(f'system zone {zone}: {name} {hh:02d}:{mm:02d} answers {got}, expected {int(want)} '
+                                   '(the zone was switched within the process)')
+    except Exception as e:  # noqa: BLE001
+        bad.append(f'time-zone switch probe raised {type(e).__name__}: {e}')
+    finally:
+        if old is None:
+            os.environ.pop('TZ', None)
+        else:
+            os.environ['TZ'] = old
+        time.tzset()
+    return bad[:4]
+
+
 def main() -> int:
     resource.setrlimit(resource.RLIMIT_AS, (6 << 30, 6 << 30))
     time.tzset()
     cases = json.load(open(sys.argv[1]))
     out = [run_case(c) for c in cases]
     if out and cases and cases[0].get('with_holiday_probe'):
-        out[0]['holiday_probe'] = holiday_probe()
+        out[0]['holiday_probe'] = holiday_probe() + tz_switch_probe()
     json.dump(out, open(sys.argv[2], 'w'))
     return 0
 
